@@ -593,12 +593,12 @@ Proof.
   f_equal; zify_divmod; lia.
 Qed.
 
-(* distinct positions get distinct ids, except the pair (0,0) / (65535,65535) *)
+(* distinct positions get distinct ids, except the last two positions (65534,65535) / (65535,65535) *)
 Lemma pos_eq_dec (a b : N * N) : {a = b} + {a <> b}.
 Proof. decide equality; apply N.eq_dec. Qed.
 
 Lemma placement_inj p1 p2 : in_dom p1 -> in_dom p2 -> placement_id p1 = placement_id p2 ->
-  p1 = p2 \/ (p1 = (0, 0) /\ p2 = (65535, 65535)) \/ (p1 = (65535, 65535) /\ p2 = (0, 0)).
+  p1 = p2 \/ (p1 = (65534, 65535) /\ p2 = (65535, 65535)) \/ (p1 = (65535, 65535) /\ p2 = (65534, 65535)).
 Proof.
   intros H1 H2 E.
   destruct (pos_eq_dec p1 (65535, 65535)) as [C1|C1], (pos_eq_dec p2 (65535, 65535)) as [C2|C2].
@@ -608,7 +608,7 @@ Proof.
   - left. rewrite <- (placement_inverse p1 H1 C1), <- (placement_inverse p2 H2 C2), E. reflexivity.
 Qed.
 
-Lemma corner_collision : placement_id (0, 0) = placement_id (65535, 65535).
+Lemma corner_collision : placement_id (65534, 65535) = placement_id (65535, 65535).
 Proof. reflexivity. Qed.
 
 (* ---------- the payload theorem ---------- *)
